@@ -3,3 +3,7 @@ From C08 Require Export Model.
 From C08.gen Require Export Facts.
 Lemma facts_match_lemma : check gen_table gen_rc = true.
 Proof. vm_compute. reflexivity. Qed.
+Lemma contracts_src_lemma : contracts_ok gen_table = true.
+Proof. vm_compute. reflexivity. Qed.
+Lemma cmp_facts_lemma : cmp_ok gen_cmp = true.
+Proof. vm_compute. reflexivity. Qed.
